@@ -115,6 +115,26 @@ ENGINES['ethread'] = {
                           'application side: driver pump running the plan, mock remote pipes (source / linear / sink), application sinks, recording probes'],
 }
 
+BUF_SRC = ['lib/upipe/ubuf_block_mem.c', 'lib/upipe/ubuf_mem_common.c', 'lib/upipe/ubuf_pic_mem.c',
+           'lib/upipe/ubuf_pic_common.c', 'lib/upipe/ubuf_sound_mem.c', 'lib/upipe/ubuf_sound_common.c',
+           'lib/upipe/ubuf_mem.c', 'lib/upipe/ubuf_pic.c', 'lib/upipe/uref_pic_flow.c',
+           'lib/upipe/udict_inline.c', 'lib/upipe/uref_std.c', 'lib/upipe/uprobe.c']
+ENGINES['ets'] = {
+    'src': ['harness/ets.c'],
+    'sim_src': ['sim/alloc.c', 'sim/umem_sim.c'],
+    'inc_first': ['shim'],
+    'repo_src': BUF_SRC + ['lib/upipe-ts/upipe_ts_psi_merge.c', 'lib/upipe-ts/upipe_ts_psi_split.c',
+                           'lib/upipe-ts/upipe_ts_psi_join.c'],
+    'track_alloc': True,
+    'real': ['lib/upipe-ts/upipe_ts_psi_merge.c', 'lib/upipe-ts/upipe_ts_psi_split.c', 'lib/upipe-ts/upipe_ts_psi_join.c',
+             'include/upipe-ts/uref_ts_flow.h', 'include/upipe/ubuf_block.h', 'include/upipe/upipe_helper_output.h',
+             'include/upipe/upipe_helper_subpipe.h', 'lib/upipe/ubuf_block_mem.c', 'lib/upipe/uref_std.c', 'lib/upipe/udict_inline.c'],
+    'stubs': ['transport: seeded packetiser cutting sections into TS payloads (pointer fields, stuffing, several sections per payload), '
+              'channel that loses payloads, flags discontinuities, corrupts octets',
+              'allocator (umem_sim + malloc layer with injected failures)', 'recording sinks',
+              'bitstream/mpeg/psi.h replaced by shim/bitstream/mpeg/psi.h (section length, syntax indicator)'],
+}
+
 SC = ('interleavings are explored under sequential consistency at the yield points of DESIGN.md 2.1 '
       '(every uatomic operation, every plain ring-element access, every descriptor read/write)')
 
@@ -246,6 +266,23 @@ PROPS['C06'] = {
     'design_ref': 'DESIGN.md section 5, E-thread / C06',
 }
 
+PROPS['C16'] = {
+    'engine': 'ets', 'quick_time': 30, 'thorough_time': 600,
+    'rule': ('one case = merge: 1-8 generated sections (3..4096 octets, with and without the syntax indicator, 0xff and header-like octets in the body) cut into '
+             'TS payloads of 1..184 octets by a seeded packetiser (pointer fields, several sections per payload, cuts anywhere including inside the 3-octet header, '
+             'stuffing, buffers of up to 3 segments), a channel that loses payloads (next one flagged discontinuity), flags discontinuities or silently corrupts octets, '
+             'allocation failures inside inputs, release at any payload; split: 1-6 sections sent through 0-4 outputs with 1-8 octet filter/mask sets, outputs added and '
+             'removed between sections; join: sections into 1-4 inputs added and removed between sections. Distinct = distinct plan hash.'),
+    'assumptions': ['one simulated thread; nondeterminism = how the transport cuts, loses and damages the stream, when outputs come and go, when the application lets go, allocator failures',
+                    'bitstream/mpeg/psi.h is a hand-written stand-in (section_length, section_syntax_indicator, minimum length 9 with the syntax indicator)',
+                    'under silent corruption (no discontinuity flag) only well-formedness of every output, termination and leak freedom are decided; the resynchronisation clause is decided for damage the transport layer flags (lost payload -> discontinuity on the next one, as upipe_ts_decaps does on a continuity gap)',
+                    'filters are generated inside their mask (filter & ~mask == 0)',
+                    'after an injected allocation failure only lifecycle and leak oracles stay armed'],
+    'technique': 'deterministic simulation with fault injection: a simulated transport cuts generated PSI sections into TS payloads (seeded packetiser), loses / flags / corrupts them, fails allocations, adds and removes outputs and inputs, releases in mid-stream; independent reference merger and matcher as oracle, compared octet for octet; minimised replay files',
+    'level_note': 'sampling, not enumeration; trusted base = sim/*, the packetiser and reference merger in harness/ets.c, shim/bitstream/mpeg/psi.h',
+    'design_ref': 'DESIGN.md section 5, C16',
+}
+
 TECH = 'deterministic simulation with fault injection: seeded search over schedules / fault sequences, reference-model oracle, minimised replay files'
 
 PROPS['C07'].update({
@@ -302,12 +339,13 @@ LEVEL_TEXT = {
     'C07': 'Seeded exploration of interleavings of small client programs on the real ulifo/ufifo/upool at the granularity of single atomic operations and plain ring accesses; every history is checked for linearizability against a sequential model. Evidence, not proof: a clean batch of some millions of distinct schedules; found and fixed a real ABA defect in uring_fifo_pop.',
     'C08': 'Seeded exploration of producers/consumers sleeping on simulated event descriptors around the real uqueue; any quiescent state with work left is a lost wake-up. Found and fixed the counter-based wake-up defect; evidence, not proof.',
     'C06': 'Seeded exploration of thread interleavings of the real worker, transfer and queue pipes between an application thread and worker / producer threads: every buffer arrives exactly once, in order, under the flow definition it was sent under; end of source only after the last buffer; a full queue holds and later delivers; transferred pipes are only entered from the worker thread or under the freeze mutex; forwarded events arrive on the application thread; everything terminates and nothing stays allocated. Evidence, not proof.',
+    'C16': 'Seeded transport histories through the real psi_merge, psi_split and psi_join: the merger returns exactly the sections the transport delivered, in order, once, complete, and picks up again at the next unit start after a flagged loss; every output is a well-formed section whatever comes in; the splitter delivers each section unmodified to exactly the outputs whose filter/mask match; the joiner forwards every section of every input; nothing stays allocated. Evidence, not proof.',
     'C09': 'Seeded exploration of concurrent use/release on the real urefcount with a harness-side count as oracle (destructor exactly once, never early). Evidence, not proof.',
 }
 
 NOT_YET = 'not claimed yet: engine under construction (DESIGN.md section 10)'
 NOT_APPLICABLE = {
-    'C12': NOT_YET, 'C15': NOT_YET, 'C16': NOT_YET,
+    'C15': NOT_YET,
     'C11': 'pure arithmetic on eight integer fields of one uref: no schedule, clock, fault or second party for a simulator to vary (DESIGN.md section 6)',
     'C17': 'NAL conversion / exp-Golomb are pure functions of their input; the framers need bitstream h264/h265 headers that are absent from the sandbox (DESIGN.md section 6)',
     'C18': 'bit writer/readers are pure functions of (fields, buffer size, segmentation); nothing blocks, allocates, times out or is shared (DESIGN.md section 6)',
